@@ -77,22 +77,27 @@ def check_journal(args):
             keep.update(e for e in ends)
             cuts = sorted(keep)
         f = os.path.join(wd, "cut.jnl")
+        jf = os.path.join(wd, "content.jnl")
+        open(jf, "wb").write(C)
+        cl = []
         for m in cuts:
             for pad in ((0, 37) if (m % 3 == 0 or tier != "quick") else (r.choice([0, 1, 64]),)):
-                data = C[:m] + b"\x00" * pad
-                open(f, "wb").write(data)
-                li = J.read_impl(f)
-                after = os.path.getsize(f)
-                open(f, "wb").write(data)
-                lm = J.read_model(f)
-                out["cuts"] += 1
-                k = sum(1 for e in ends if e <= m)
-                want_len = ends[k - 1] if k else 0
-                want = batches[:k] + ["end ok", "len %d" % want_len]
-                if li != lm or li != want or after != want_len:
-                    out["problems"].append(("cut", m, pad, li[-3:] + ["filelen %d" % after], lm[-3:], want[-3:]))
-                    if len(out["problems"]) > 3:
-                        return out
+                cl.append((m, pad))
+        chunks = [cl[i:i + 60] for i in range(0, len(cl), 60)]
+        bi = J.cuts_impl(jf, f, cl)
+        bm = [b for part in pmap(lambda ch: J.cuts_model(jf, ch), chunks, workers=8) for b in part]
+        if len(bi) != len(cl) or len(bm) != len(cl):
+            out["problems"].append(("cut-run", -1, 0, ["impl blocks %d" % len(bi)], ["model blocks %d" % len(bm)], [str(len(cl))]))
+            return out
+        for (m, pad), li, lm in zip(cl, bi, bm):
+            out["cuts"] += 1
+            k = sum(1 for e in ends if e <= m)
+            want_len = ends[k - 1] if k else 0
+            want = batches[:k] + ["end ok", "len %d" % want_len]
+            if li != lm or li != want:
+                out["problems"].append(("cut", m, pad, li[-3:], lm[-3:], want[-3:]))
+                if len(out["problems"]) > 3:
+                    return out
         # reopen with the real recovery at a few cut points, then append and reopen again
         nre = 4 if tier == "quick" else 20
         for m in r.sample(cuts, min(nre, len(cuts))):
